@@ -4,7 +4,7 @@
    wire allocator's ownership invariant along the execution. *)
 From Coq Require Import NArith ZArith List Bool Arith Lia Permutation.
 From Coq Require Import FMapPositive.
-From Mpc Require Import Circuit.Circuit Lang.Gc Lang.GcProof Proto.Stream Proto.StreamProof Proto.StreamSimProof.
+From Mpc Require Import Circuit.Circuit Lang.Gc Lang.GcProof Proto.Stream Proto.StreamProof Proto.StreamSimProof Proto.StreamCircProof.
 Import ListNotations.
 Local Open Scope nat_scope.
 
@@ -198,6 +198,14 @@ Section Dyn.
   Proof.
     intros L Hk Hid. apply lookup_in in L. unfold owned_ids. apply in_flat_map.
     exists (k, e). split; [exact L|]. simpl. apply mem_false in Hk. rewrite Hk. exact Hid.
+  Qed.
+
+  Lemma owned_inv l id : In id (owned_ids l) -> NoDup (map fst l) ->
+    exists k e, lookup k l = Some e /\ ~ In k Kt /\ In id (oblock e).
+  Proof.
+    intros H Hnd. unfold owned_ids in H. apply in_flat_map in H as ([k e] & Hin & Hid). cbn [fst snd] in Hid.
+    destruct (mem k Kt) eqn:M; [destruct Hid|]. exists k, e.
+    split; [apply in_lookup0; auto|]. split; [apply mem_false, M | exact Hid].
   Qed.
 
   Lemma owned_set_key l k e e' :
@@ -646,6 +654,66 @@ Section Dyn.
       + cbn [map]. rewrite <- Ew. f_equal. rewrite (X12 _ Ala), <- Eids. reflexivity.
   Qed.
 
+  (* ---- the return values of a native circuit step (case Circ): every one
+     gets a fresh block, all different, none of them an id anybody owns *)
+  Lemma circ_out_ids_inv : forall rets sizes w defd gcd oIDs w3,
+    ginv w defd gcd -> length sizes = length rets -> NoDup (map vid rets) ->
+    (forall r, In r rets -> In (vid r) NC /\ lookup (vid r) (whash w) = None /\ ~ In (vid r) gcd) ->
+    circ_out_ids w zero sizes rets = (oIDs, w3) ->
+    exists defd3, ginv w3 defd3 gcd /\
+      (forall k, In k defd3 <-> In k (map vid rets) \/ In k defd) /\
+      (forall k, ~ In k (map vid rets) -> ids_of w3 k = ids_of w k /\ allocated w3 k = allocated w k) /\
+      (forall k e1, lookup k (whash w) = Some e1 -> lookup k (whash w3) = Some e1) /\
+      (forall r, In r rets -> allocated w3 (vid r) = true /\ length (ids_of w3 (vid r)) = vbits r) /\
+      NoDup (flat_map (fun r => ids_of w3 (vid r)) rets) /\
+      (forall id, In id (flat_map (fun r => ids_of w3 (vid r)) rets) -> ~ In id (owned_ids (whash w))) /\
+      (sizes = map vbits rets -> oIDs = flat_map (fun r => ids_of w3 (vid r)) rets).
+  Proof.
+    induction rets as [|r rs IH]; intros sizes w defd gcd oIDs w3 G Hl Hnd Hr H.
+    - destruct sizes; [|discriminate]. cbn in H. injection H as <- <-. exists defd. split; [exact G|].
+      split; [intros k; cbn; tauto|]. split; [auto|]. split; [auto|]. split; [intros r []|].
+      split; [constructor|]. split; [intros id []|]. reflexivity.
+    - destruct sizes as [|n t]; [discriminate|]. cbn [circ_out_ids] in H.
+      destruct (assigned_ids w (vid r) (vbits r)) as [ids w1] eqn:Ea.
+      destruct (circ_out_ids w1 zero t rs) as [o w2] eqn:Er. injection H as <- <-.
+      cbn [map] in Hnd. inversion Hnd as [|? ? Hn Hnd']; subst.
+      destruct (Hr r (or_introl eq_refl)) as (R1 & R2 & R3).
+      destruct (aid_new _ _ _ _ _ _ _ G R2 (fun _ => R3) Ea) as (G1 & I1 & Ind & I2 & I3 & I4 & I5 & I6 & (ev & Lev & Ewv & Eiv & Hobv)).
+      assert (HrK : ~ In (vid r) Kt) by (intros Hk; exact (kt_nc _ Hk R1)).
+      assert (Hlen_ids : length ids = vbits r).
+      { destruct (aid_new_shape _ _ _ _ _ R2 Ea) as (b0 & -> & _). apply block_length. }
+      assert (Hr1 : forall r0, In r0 rs -> In (vid r0) NC /\ lookup (vid r0) (whash w1) = None /\ ~ In (vid r0) gcd).
+      { intros r0 H0. destruct (Hr r0 (or_intror H0)) as (A & B & C). split; [exact A|]. split; [|exact C].
+        assert (Hne : vid r0 <> vid r) by (intros E; apply Hn; rewrite <- E; apply in_map, H0).
+        pose proof (I3 _ Hne) as Hal. unfold allocated in Hal. rewrite B in Hal.
+        destruct (lookup (vid r0) (whash w1)); [discriminate | reflexivity]. }
+      assert (Hl' : length t = length rs) by (simpl in Hl; lia).
+      destruct (IH t w1 (vid r :: defd) gcd o w2 G1 Hl' Hnd' Hr1 Er) as (defd3 & G3 & D3 & K3 & L3 & A3 & N3 & F3 & O3).
+      assert (Hidr : ids_of w2 (vid r) = ids) by (rewrite (proj1 (K3 _ Hn)); exact I1).
+      assert (Hown1 : forall id, In id ids -> In id (owned_ids (whash w1))).
+      { intros id Hid. apply (owned_in _ (vid r) ev); auto. rewrite Hobv. exact Hid. }
+      assert (Hsub : forall id, In id (owned_ids (whash w)) -> In id (owned_ids (whash w1))).
+      { intros id Hid. destruct (owned_inv _ _ Hid (g_keys _ _ _ G)) as (k & e & Lk & Hk & Hb).
+        apply (owned_in _ k e); auto. }
+      exists defd3. split; [exact G3|].
+      split; [intros k; rewrite D3; cbn; tauto|].
+      split.
+      { intros k Hk. assert (Hk1 : k <> vid r) by (intros ->; apply Hk; left; reflexivity).
+        assert (Hk2 : ~ In k (map vid rs)) by (intros Hi; apply Hk; right; exact Hi).
+        destruct (K3 k Hk2) as [K31 K32]. split; [rewrite K31; apply I2, Hk1 | rewrite K32; apply I3, Hk1]. }
+      split; [intros k e1 Lk; apply L3, I5, Lk|].
+      split.
+      { intros r0 [<-|H0]; [|apply A3, H0]. split; [rewrite (proj2 (K3 _ Hn)); exact I4 | rewrite Hidr; exact Hlen_ids]. }
+      split.
+      { cbn [flat_map]. rewrite Hidr. apply NoDup_app_iff. split; [exact Ind|]. split; [exact N3|].
+        intros id Hid Hf. exact (F3 id Hf (Hown1 id Hid)). }
+      split.
+      { cbn [flat_map]. rewrite Hidr. intros id Hid. apply in_app_or in Hid as [Hid|Hid]; [apply I6, Hid|].
+        intros Ho. exact (F3 id Hid (Hsub id Ho)). }
+      intros Es. cbn [map] in Es. injection Es as -> ->. cbn [flat_map]. rewrite Hidr, (O3 eq_refl).
+      f_equal. rewrite <- Hlen_ids. apply fill_self.
+  Qed.
+
   (* ------------------------------------------------------------------ *)
   (** * The run along the gc'd list *)
   Variable circs : list ccirc.
@@ -655,7 +723,9 @@ Section Dyn.
   Definition sok (s : instr) : Prop :=
     match iop s with
     | ORet => iout s = None /\ iret s = []
-    | OGC | OCirc => False
+    | OGC => False
+    | OCirc => iout s = None /\ NoDup (map vid (iret s)) /\
+               length (cc_outs (nth (icirc s) circs cc0)) = length (iret s)
     | _ => exists o, iout s = Some o /\ iret s = []
     end /\
     forall i, In i (iin s) -> (vconst i = true -> ~ In (vid i) NC) /\
@@ -773,6 +843,9 @@ Section Dyn.
     destruct (iop s); try discriminate; reflexivity.
   Qed.
 
+  Lemma outs_l_app a b : outs_l (a ++ b) = outs_l a ++ outs_l b.
+  Proof. unfold outs_l. apply flat_map_app. Qed.
+
   Lemma step_run s rest E later w defd gcd :
     steps0 = E ++ s :: later -> ginv w defd gcd -> defd_rel defd E -> live gcd E (s :: later) ->
     (forall v, In v (used_from rest) -> In v (ncops_l later) \/ ~ In v NC) ->
@@ -816,9 +889,56 @@ Section Dyn.
     { intros i Hi. apply Hnodoom, Hused. unfold used_from. cbn [flat_map]. apply in_or_app. left. apply in_map, Hi. }
     (* classify the operator *)
     assert (Hcls : (iop s = ORet /\ iout s = None /\ iret s = []) \/
-                   (exists o, iout s = Some o /\ iret s = [] /\ (iop s = OGen \/ is_alias_op (iop s) = true))).
-    { destruct (iop s); try contradiction; try (right; destruct Hshape as (o & H1 & H2); exists o; auto). left. tauto. }
-    destruct Hcls as [(Eop & Eout & Eret)|(o & Eout & Eret & Ecl)].
+                   (exists o, iout s = Some o /\ iret s = [] /\ (iop s = OGen \/ is_alias_op (iop s) = true)) \/
+                   (iop s = OCirc /\ iout s = None /\ NoDup (map vid (iret s)) /\
+                    length (cc_outs (nth (icirc s) circs cc0)) = length (iret s))).
+    { destruct (iop s); try contradiction; try (right; left; destruct Hshape as (o & H1 & H2); exists o; auto);
+        [left; tauto | right; right; tauto]. }
+    destruct Hcls as [(Eop & Eout & Eret)|[(o & Eout & Eret & Ecl)|(Eop & Eout & Hndr & Hlenr)]].
+    3:{ (* a native circuit step *)
+      unfold wstep. destruct (operand_ids w zero (iin s)) as [wires w1] eqn:Eo.
+      destruct (operand_ids_inv _ _ _ _ _ _ Gi Hopnd Eo) as (defd1 & G1 & D1 & X1 & Al1 & Ew).
+      rewrite Eout, Eop.
+      assert (Hrel1 : defd_rel defd1 E) by (intros k Hk; rewrite D1 by exact Hk; apply Hrel, Hk).
+      assert (Houts : outs_of s = map vid (iret s)) by (unfold outs_of; rewrite Eout; reflexivity).
+      assert (Hrets : forall r, In r (iret s) -> In (vid r) NC /\ lookup (vid r) (whash w1) = None /\ ~ In (vid r) gcd).
+      { intros r Hr0. assert (Hov : In (vid r) (outs_of s)) by (rewrite Houts; apply in_map, Hr0).
+        assert (HoNC : In (vid r) NC).
+        { apply HNC, in_or_app. left. unfold outs_l. apply in_flat_map. exists s. auto. }
+        assert (HoNew : ~ In (vid r) (outs_l E ++ map fst args)) by (apply Wo, Hov).
+        split; [exact HoNC|]. split.
+        - destruct (lookup (vid r) (whash w1)) eqn:L; [|reflexivity]. exfalso. apply HoNew, (Hrel1 _ HoNC).
+          apply (g_alloc _ _ _ G1 _ HoNC). unfold allocated. rewrite L. reflexivity.
+        - intros Hg. destruct (Hl _ Hg) as (_ & Hd & _). exact (HoNew Hd). }
+      destruct (circ_out_ids w1 zero (cc_outs (nth (icirc s) circs cc0)) (iret s)) as [oIDs w3] eqn:Ec.
+      destruct (circ_out_ids_inv _ _ _ _ _ _ _ G1 Hlenr Hndr Hrets Ec) as (defd3 & G3 & D3 & K3 & L3 & A3 & N3 & F3 & _).
+      assert (Hwr : write_ok w3 (flat_map (ids_of w3) (outs_of s)) (outs_of s) (used_from (s :: rest)) [zero; one] = true).
+      { rewrite Houts, flat_map_map. unfold write_ok. apply andb_true_intro. split.
+        - apply forallb_forall. intros id Hid. destruct (g_z _ _ _ G1) as (ez & eo & Z1 & Z2 & Z3 & Z4).
+          assert (Hnz : ~ In id [zero; one]).
+          { intros [<-|[<-|[]]]; apply (F3 _ Hid).
+            - apply (owned_in _ zk ez); auto. rewrite Z2. left. reflexivity.
+            - apply (owned_in _ ok eo); auto. rewrite Z4. left. reflexivity. }
+          apply mem_false in Hnz. rewrite Hnz. reflexivity.
+        - apply forallb_forall. intros v Hv.
+          destruct (in_dec N.eq_dec v (map vid (iret s))) as [Hvo|Hvo]; [rewrite (in_mem_true _ _ Hvo); reflexivity|].
+          apply orb_true_iff. right. rewrite (proj1 (K3 v Hvo)).
+          apply forallb_forall. intros id Hid.
+          assert (Hni : ~ In id (ids_of w1 v)).
+          { intros Hiv. unfold ids_of in Hiv. destruct (lookup v (whash w1)) as [e|] eqn:Lv; [|destruct Hiv].
+            destruct (g_prov _ _ _ G1 v e Lv) as [Hd|Hp]; [exact (Hnodoom v (Hused v Hv) Hd)|].
+            assert (Hiv' : In id (ids_of w1 v)) by (unfold ids_of; rewrite Lv; exact Hiv).
+            destruct (Hp id Hiv') as (k & e' & P1 & P2 & P3 & _).
+            apply (F3 id Hid). eapply owned_in; eauto. }
+          apply mem_false in Hni. rewrite Hni. reflexivity. }
+      rewrite Hwr. cbn [andb]. apply (K w3 defd3 G3).
+      - intros k Hk. rewrite D3, (Hrel1 k Hk), outs_l_app. change (outs_l [s]) with (outs_of s ++ []). rewrite app_nil_r, Houts.
+        rewrite !in_app_iff. tauto.
+      - intros a Ha. apply in_nc_ins in Ha as (i & Hi & _ & <-).
+        assert (Hnr : ~ In (vid i) (map vid (iret s))).
+        { intros Hir. apply in_map_iff in Hir as (r & Er & Hr0). destruct (Hrets r Hr0) as (_ & Lr & _).
+          pose proof (Al1 i Hi) as A. unfold allocated in A. rewrite <- Er, Lr in A. discriminate. }
+        rewrite (proj2 (K3 _ Hnr)). apply Al1, Hi. }
     - (* ret *)
       unfold wstep. destruct (operand_ids w zero (iin s)) as [wires w1] eqn:Eo.
       destruct (operand_ids_inv _ _ _ _ _ _ Gi Hopnd Eo) as (defd1 & G1 & D1 & X1 & Al1 & Ew).
@@ -919,9 +1039,6 @@ Section Dyn.
         rewrite Hwr. cbn [andb]. apply (K _ _ G2 Hrel2 Halloc2).
   Qed.
 
-  Lemma outs_l_app a b : outs_l (a ++ b) = outs_l a ++ outs_l b.
-  Proof. unfold outs_l. apply flat_map_app. Qed.
-
   Lemma run_npr : forall later g, gcform steps0 later g ->
     forall E w defd gcd, steps0 = E ++ later -> ginv w defd gcd -> defd_rel defd E -> live gcd E later ->
     npr_steps circs zero one g w = true.
@@ -981,7 +1098,14 @@ Section Dyn.
 
   (* extra facts about the steps the simulation needs *)
   Definition sok2 (s : instr) : Prop :=
-    (forall i, In i (vpos_ops s) -> vconst i = true -> In (vid i) Kt) /\
+    (forall j i, In j (value_positions (iop s) (length (iin s))) -> nth_error (iin s) j = Some i -> vconst i = true ->
+       In (vid i) Kt \/
+       (iop s = OGen /\ range_unread (cc_c (nth (icirc s) circs cc0)) (opnd_off (iin s) j) (vbits i) = true)) /\
+    (iop s = OCirc ->
+       let cc := nth (icirc s) circs cc0 in
+       wf (cc_c cc) = true /\ length (cc_ins cc) = length (iin s) /\ ninputs (cc_c cc) = sum_nat (cc_ins cc) /\
+       cc_outs cc = map vbits (iret s) /\ noutputs (cc_c cc) = sum_nat (cc_outs cc) /\
+       ninputs (cc_c cc) + noutputs (cc_c cc) <= nwires (cc_c cc)) /\
     (iop s = OSlice -> forall o, iout s = Some o ->
        (0 <= nth 1 (map vcint (iin s)) 0)%Z /\ (nth 1 (map vcint (iin s)) 0 < nth 2 (map vcint (iin s)) 0)%Z /\
        Z.to_nat (nth 2 (map vcint (iin s)) 0%Z) - Z.to_nat (nth 1 (map vcint (iin s)) 0%Z) = vbits o) /\
@@ -1164,7 +1288,14 @@ Section Dyn.
     intros E0 (Hz & Gi & Hrel & Hl & HR & HB & Hrz) Hret0.
     assert (Hin : In s steps0) by (rewrite E0; apply in_or_app; right; left; reflexivity).
     pose proof (proj1 (Forall_forall _ _) Hsok s Hin) as [Hshape Hops].
-    pose proof (proj1 (Forall_forall _ _) Hsok2 s Hin) as (Htab & Hslice & Hgen).
+    pose proof (proj1 (Forall_forall _ _) Hsok2 s Hin) as (Htab0 & Hcirc & Hslice & Hgen).
+    assert (Hvp : forall i, In i (vpos_ops s) ->
+              exists j, In j (value_positions (iop s) (length (iin s))) /\ nth_error (iin s) j = Some i).
+    { intros i Hi. unfold vpos_ops in Hi. apply in_flat_map in Hi as (j & Hj & Hi).
+      destruct (nth_error (iin s) j) as [i'|] eqn:Enj; [|destruct Hi]. destruct Hi as [<-|[]]. eauto. }
+    assert (Htab : iop s <> OGen -> forall i, In i (vpos_ops s) -> vconst i = true -> In (vid i) Kt).
+    { intros Hng i Hi Hc. destruct (Hvp i Hi) as (j & Hj & Ej).
+      destruct (Htab0 j i Hj Ej Hc) as [H|[H _]]; [exact H | contradiction]. }
     destruct (Hwfl E s later E0) as [Wi Wo].
     assert (Hncs : forall a, In a (nc_ins s) -> In a NC /\ In a (outs_l E ++ map fst args)).
     { intros a Ha. specialize (Wi a Ha). split; [|exact Wi]. apply HNC.
@@ -1188,29 +1319,129 @@ Section Dyn.
     { intros v Hv (u & Hu & Hd). destruct (Hl u Hu) as (Hun & _ & Hno). destruct Hv as [Hv|Hv].
       - exact (Hno v Hd Hv).
       - apply Hv. eapply fdesc_nc; eauto. }
-    assert (Hbound : forall i, In i (vpos_ops s) -> exists b, lookup (vid i) e = Some b).
-    { intros i Hi. apply HB. destruct (vconst i) eqn:C.
-      - right. apply (Htab i Hi C).
+    assert (Hbound : forall i, In i (vpos_ops s) -> (vconst i = true -> In (vid i) Kt) ->
+              exists b, lookup (vid i) e = Some b).
+    { intros i Hi Ht. apply HB. destruct (vconst i) eqn:C.
+      - right. apply Ht. reflexivity.
       - left. apply Wi. apply in_nc_ins. exists i. repeat split; auto. apply vpos_in, Hi. }
     assert (Hl' : live gcd (E ++ [s]) later).
     { intros u Hu. destruct (Hl u Hu) as (L1 & L2 & L3). split; [exact L1|]. split.
       - rewrite outs_l_app. apply in_app_or in L2 as [H|H]; apply in_or_app; [left; apply in_or_app; auto | auto].
       - intros x Hx Hi. apply (L3 x Hx). unfold ncops_l. cbn [flat_map]. apply in_or_app. auto. }
     assert (Hcls : (iop s = ORet /\ iout s = None /\ iret s = []) \/
-                   (exists o, iout s = Some o /\ iret s = [] /\ (iop s = OGen \/ is_alias_op (iop s) = true))).
-    { destruct (iop s); try contradiction; try (right; destruct Hshape as (o & H1 & H2); exists o; auto). left. tauto. }
+                   (exists o, iout s = Some o /\ iret s = [] /\ (iop s = OGen \/ is_alias_op (iop s) = true)) \/
+                   (iop s = OCirc /\ iout s = None /\ NoDup (map vid (iret s)) /\
+                    length (cc_outs (nth (icirc s) circs cc0)) = length (iret s))).
+    { destruct (iop s); try contradiction; try (right; left; destruct Hshape as (o & H1 & H2); exists o; auto);
+        [left; tauto | right; right; tauto]. }
     destruct (operand_ids (ss_w st) zero (iin s)) as [wires w1] eqn:Eo.
     destruct (operand_ids_inv _ _ _ _ _ _ Gi Hopnd Eo) as (defd1 & G1 & D1 & X1 & Al1 & Ew).
     assert (Hrel1 : defd_rel defd1 E) by (intros k Hk; rewrite D1 by exact Hk; apply Hrel, Hk).
-    assert (Hwb : forall i, In i (vpos_ops s) ->
+    assert (Hwb0 : forall i, In i (vpos_ops s) -> (vconst i = true -> In (vid i) Kt) ->
               map (rd st) (pad_operand N zero (vsigned i) (vbits i) (ids_of w1 (vid i))) = operand_bits e i).
-    { intros i Hi. eapply operand_rel; eauto. }
-    destruct Hcls as [(Eop & Eout & Eret)|(o & Eout & Eret & Ecl)].
+    { intros i Hi Ht. eapply operand_rel; eauto. }
+    assert (Hwb : iop s <> OGen -> forall i, In i (vpos_ops s) ->
+              map (rd st) (pad_operand N zero (vsigned i) (vbits i) (ids_of w1 (vid i))) = operand_bits e i).
+    { intros Hng i Hi. apply Hwb0; [exact Hi | apply Htab; auto]. }
+    destruct Hcls as [(Eop & Eout & Eret)|[(o & Eout & Eret & Ecl)|(Eop & Eout & Hndr & Hlenr)]].
+    3:{ (* ---- a native circuit step *)
+      destruct (Hcirc Eop) as (Hcwf & Hcli & Hcni & Hcouts & Hcno & Hcsep). cbv zeta in Hcwf, Hcli, Hcni, Hcouts, Hcno, Hcsep.
+      set (cc := nth (icirc s) circs cc0) in *. set (c := cc_c cc) in *.
+      set (inb := concat (map (fun p : nat * list bool => let '(bits, w) := p in
+                                 map (fun j => if j <? length w then nth j w false else false) (seq 0 bits))
+                              (combine (cc_ins cc) (map (operand_bits e) (iin s))))).
+      assert (Hss : stream_step circs idx s st =
+                    let '(oIDs, w3) := circ_out_ids w1 zero (cc_outs cc) (iret s) in
+                    Some (vgarble (with_w st w3) idx c (circ_in_ids zero (cc_ins cc) wires) oIDs)).
+      { unfold stream_step. rewrite Hz, Eo, Eout, Eop. reflexivity. }
+      assert (Hrs : ssa_step circs s (e, []) = Some (bind_rets e (cc_outs cc) (iret s) (eval_plain c inb), [])).
+      { unfold ssa_step. rewrite Eop. reflexivity. }
+      rewrite Hss, Hrs. clear Hss Hrs.
+      assert (Houts : outs_of s = map vid (iret s)) by (unfold outs_of; rewrite Eout; reflexivity).
+      assert (Hrets : forall r, In r (iret s) -> In (vid r) NC /\ lookup (vid r) (whash w1) = None /\ ~ In (vid r) gcd).
+      { intros r Hr0. assert (Hov : In (vid r) (outs_of s)) by (rewrite Houts; apply in_map, Hr0).
+        assert (HoNC : In (vid r) NC).
+        { apply HNC, in_or_app. left. unfold outs_l. apply in_flat_map. exists s. auto. }
+        assert (HoNew : ~ In (vid r) (outs_l E ++ map fst args)) by (apply Wo, Hov).
+        split; [exact HoNC|]. split.
+        - destruct (lookup (vid r) (whash w1)) eqn:L; [|reflexivity]. exfalso. apply HoNew, (Hrel1 _ HoNC).
+          apply (g_alloc _ _ _ G1 _ HoNC). unfold allocated. rewrite L. reflexivity.
+        - intros Hg. destruct (Hl _ Hg) as (_ & Hd & _). exact (HoNew Hd). }
+      destruct (circ_out_ids w1 zero (cc_outs cc) (iret s)) as [oIDs w3] eqn:Ec.
+      destruct (circ_out_ids_inv _ _ _ _ _ _ _ G1 Hlenr Hndr Hrets Ec) as (defd3 & G3 & D3 & K3 & L3 & A3 & N3 & F3 & O3).
+      specialize (O3 Hcouts).
+      set (idsf := fun r : val => ids_of w3 (vid r)) in *.
+      set (iIDs := circ_in_ids zero (cc_ins cc) wires).
+      destruct (vgarble_parts (with_w st w3) idx c iIDs oIDs) as (V1 & V2 & V3 & V4).
+      set (st' := vgarble (with_w st w3) idx c iIDs oIDs) in *.
+      cbn [with_w ss_w ss_zero ss_ret ss_cs] in V1, V2, V3, V4.
+      assert (Hzown : In zero (owned_ids (whash w1))).
+      { destruct (g_z _ _ _ G1) as (ez & eo & Z1 & Z2 & _). apply (owned_in _ zk ez); auto. rewrite Z2. left. reflexivity. }
+      assert (Hinsown : forall id, In id iIDs -> id = zero \/ In id (owned_ids (whash w1))).
+      { intros id Hid. apply circ_in_incl in Hid as [->|(wj & Hwj & Hid)]; [auto|]. rewrite Ew in Hwj.
+        apply in_map_iff in Hwj as (i & <- & Hi). apply pad_operand_incl in Hid as [->|Hid]; [auto|]. right.
+        pose proof (Al1 i Hi) as Ha. apply allocated_lookup in Ha as (ei & Li).
+        destruct (g_prov _ _ _ G1 _ _ Li) as [Hd|Hp].
+        - exfalso. apply (Hnodoom (vid i)); [apply (Hopcls s i); [left; reflexivity | exact Hi] | exact Hd].
+        - destruct (Hp id Hid) as (k & e' & P1 & P2 & P3 & _). eapply owned_in; eauto. }
+      assert (Hwlen : length wires = length (iin s)) by (rewrite Ew, map_length; reflexivity).
+      assert (Hlenf : forall r, In r (iret s) -> length (idsf r) = vbits r) by (intros r Hr0; apply A3, Hr0).
+      destruct (stream_sim_circuit c iIDs oIDs) with (cs := ss_cs st) as [S1 S2].
+      { unfold iIDs. rewrite circ_in_length by (rewrite Hwlen; exact Hcli). symmetry. exact Hcni. }
+      { rewrite O3, (flat_map_len idsf (iret s) Hlenf), Hcno, Hcouts. symmetry. apply sum_nat_vbits. }
+      { rewrite O3. exact N3. }
+      { intros id Ho Hi. rewrite O3 in Ho. destruct (Hinsown id Hi) as [->|H]; [exact (F3 _ Ho Hzown) | exact (F3 _ Ho H)]. }
+      { exact Hcwf. }
+      { exact Hcsep. }
+      cbv zeta in S1, S2. rewrite <- V4 in S1, S2.
+      assert (S1' : map (rd st') oIDs = eval_plain c (map (rd st) iIDs)) by exact S1.
+      assert (Hframe : forall id, ~ In id oIDs -> rd st' id = rd st id) by (intros id Hid; apply S2, Hid).
+      assert (Hins : map (rd st) iIDs = inb).
+      { unfold iIDs, inb. rewrite (circ_in_read (rd st) zero Hrz). do 3 f_equal.
+        rewrite Ew, map_map. apply map_ext_in. intros i Hi.
+        apply Hwb; [rewrite Eop; discriminate|]. apply vpos_all; [rewrite Eop; reflexivity | exact Hi]. }
+      assert (Hbits : map (rd st') (flat_map idsf (iret s)) = eval_plain c inb) by (rewrite <- O3, S1', Hins; reflexivity).
+      split; [|split; [|split]].
+      * exists defd3. split; [rewrite V2; exact Hz|]. split; [rewrite V1; exact G3|].
+        split.
+        { intros k Hk. rewrite D3, (Hrel1 k Hk), outs_l_app. change (outs_l [s]) with (outs_of s ++ []).
+          rewrite app_nil_r, Houts. rewrite !in_app_iff. tauto. }
+        split; [exact Hl'|]. split; [|split].
+        -- intros v b Lb Hv. rewrite V1. rewrite Hcouts in Lb.
+           destruct (bind_rets_rel idsf (rd st') e (iret s) _ Hlenf Hbits v b Lb) as [(r & Hr0 & <- & Hm)|[Hnv Le]].
+           ++ split; [apply A3, Hr0 | exact Hm].
+           ++ destruct (HR v b Le (vused_cons s later v Hv)) as [A1 A2].
+              destruct X1 as (X11 & X12 & X13).
+              assert (Ha1 : allocated w1 v = true).
+              { apply allocated_lookup in A1 as (e0 & He0). destruct (X11 _ _ He0) as (e1 & He1 & _). apply allocated_lookup. eauto. }
+              split; [rewrite (proj2 (K3 v Hnv)); exact Ha1|].
+              rewrite (proj1 (K3 v Hnv)), (X12 _ A1), <- A2. apply map_ext_in. intros id Hid. apply Hframe. intros Ho.
+              rewrite O3 in Ho.
+              assert (Hidw1 : In id (ids_of w1 v)) by (rewrite (X12 _ A1); exact Hid).
+              apply allocated_lookup in Ha1 as (e1 & Le1).
+              destruct (g_prov _ _ _ G1 _ _ Le1) as [Hd|Hp].
+              ** apply (Hnodoom v); [|exact Hd].
+                 destruct (vused_class later v (fun t Ht => Hlater_in t (or_intror Ht)) Hv) as [H|H]; [left|auto].
+                 unfold ncops_l. cbn [flat_map]. apply in_or_app. auto.
+              ** destruct (Hp id Hidw1) as (k & e' & P1 & P2 & P3 & _). apply (F3 id Ho). eapply owned_in; eauto.
+        -- intros k Hk. apply bind_rets_bound; [exact Hlenr|].
+           destruct Hk as [Hk|Hk]; [|left; apply HB; auto].
+           rewrite outs_l_app in Hk. change (outs_l [s]) with (outs_of s ++ []) in Hk. rewrite app_nil_r, Houts in Hk.
+           rewrite !in_app_iff in Hk. destruct Hk as [[Hk|Hk]|Hk]; [left; apply HB; left; apply in_or_app; auto | auto |
+                                                                 left; apply HB; left; apply in_or_app; auto].
+        -- rewrite Hframe; [exact Hrz|]. intros Ho. rewrite O3 in Ho. exact (F3 _ Ho Hzown).
+      * intros a Ha. rewrite V1. apply in_nc_ins in Ha as (i & Hi & _ & <-).
+        assert (Hnr : ~ In (vid i) (map vid (iret s))).
+        { intros Hir. apply in_map_iff in Hir as (r & Er & Hr0). destruct (Hrets r Hr0) as (_ & Lr & _).
+          pose proof (Al1 i Hi) as A. unfold allocated in A. rewrite <- Er, Lr in A. discriminate. }
+        rewrite (proj2 (K3 _ Hnr)). apply Al1, Hi.
+      * rewrite V3, Hret0. reflexivity.
+      * intros _. rewrite V3, Hret0. auto. }
     - (* ret *)
       unfold stream_step, ssa_step. rewrite Hz, Eo, Eout, Eop.
       assert (Hlat : later = []) by (eapply Hretlast; eauto). subst later.
       assert (Hall : map (rd st) (concat wires) = concat (map (operand_bits e) (iin s))).
-      { rewrite concat_map, Ew, map_map. f_equal. apply map_ext_in. intros i Hi. apply Hwb.
+      { rewrite concat_map, Ew, map_map. f_equal. apply map_ext_in. intros i Hi. apply Hwb; [rewrite Eop; discriminate|].
         apply vpos_all; [rewrite Eop; reflexivity | exact Hi]. }
       split; [|split; [|split]].
       + exists defd1. split; [reflexivity|]. split; [exact G1|]. split.
@@ -1274,7 +1505,7 @@ Section Dyn.
           - apply alias_ids_positions; [|exact Eal]. rewrite map_length, Ew, map_length. intros j Hj.
             destruct (nth_error (iin s) j) as [i|] eqn:Ej.
             + rewrite map_map. rewrite (nth_map_error _ _ j i [] Ej), (nth_map_error _ _ j i [] Ej).
-              apply Hwb. eapply vpos_at; eauto.
+              apply Hwb; [intros Eg; rewrite Eg in Eal; discriminate|]. eapply vpos_at; eauto.
             + apply nth_error_None in Ej. rewrite !nth_overflow by (rewrite ?map_length; exact Ej). reflexivity.
           - rewrite map_length, repeat_length. exact Hlen_out.
           - rewrite map_length. exact Hlen_out.
@@ -1339,9 +1570,21 @@ Section Dyn.
         { exact Hcsep. }
         cbv zeta in S1, S2. rewrite <- V4 in S1, S2.
         fold (rd st) in S1. fold (rd st') in S1.
-        assert (Hins : map (rd st) (concat wires) = concat (map (operand_bits e) (iin s))).
-        { rewrite concat_map, Ew, map_map. f_equal. apply map_ext_in. intros i Hi. apply Hwb.
-          apply vpos_all; [rewrite Eg; reflexivity | exact Hi]. }
+        assert (Hins : eval_plain c (map (rd st) (concat wires)) = eval_plain c (concat (map (operand_bits e) (iin s)))).
+        { rewrite concat_map, Ew, map_map.
+          assert (Hlf : forall i, length (map (rd st) (pad_operand N zero (vsigned i) (vbits i) (ids_of w1 (vid i)))) = vbits i)
+            by (intros i; rewrite map_length; apply pad_operand_length).
+          assert (Hlg : forall i, length (operand_bits e i) = vbits i) by (intros i; unfold operand_bits; apply pad_operand_length).
+          apply eval_plain_unread.
+          - rewrite (concat_len _ (iin s) Hlf), (concat_len _ (iin s) Hlg). reflexivity.
+          - exact Hcsep.
+          - intros k Hk Hr. apply (blocks_agree c _ _ (iin s) 0 Hlf Hlg); [|exact Hr].
+            intros j i Ej.
+            assert (Hj : In j (value_positions (iop s) (length (iin s)))).
+            { rewrite Eg. cbn [value_positions]. apply in_seq. split; [lia|]. cbn [Nat.add]. apply nth_error_Some. rewrite Ej. discriminate. }
+            destruct (vconst i) eqn:C.
+            + destruct (Htab0 j i Hj Ej C) as [H|[_ H]]; [left; apply Hwb0; [eapply vpos_at; eauto | intros _; exact H] | right; exact H].
+            + left. apply Hwb0; [eapply vpos_at; eauto | congruence]. }
         assert (Hframe : forall id, ~ In id out -> rd st' id = rd st id) by (intros id Hid; apply S2, Hid).
         split; [|split; [|split]].
         * exists (vid o :: defd1). split; [rewrite V2; exact Hz|]. split; [rewrite V1; exact G2|].
@@ -1739,6 +1982,46 @@ Proof.
     destruct Hc as [Hc Hw]. constructor; [exact Hc | eapply IH; eauto].
 Qed.
 
+Lemma wf_circ_shape : forall steps defd, wf_steps defd steps = true ->
+  Forall (fun s => iop s = OCirc -> iout s = None /\ NoDup (map vid (iret s))) steps.
+Proof.
+  induction steps as [|s rest IH]; intros defd H; [constructor|].
+  destruct rest as [|s2 rest'].
+  - cbn [wf_steps] in H. constructor; [|constructor]. intros Eop. rewrite Eop in H. discriminate.
+  - remember (s2 :: rest') as rest eqn:Er.
+    assert (Hc : (iop s = OCirc -> iout s = None /\ NoDup (map vid (iret s))) /\ wf_steps (outs_of s ++ defd) rest = true).
+    { subst rest. cbn [wf_steps] in H.
+      destruct (iop s) eqn:Eop; try discriminate;
+        repeat (apply andb_prop in H as [H ?]); (split; [|assumption]); try (intros; discriminate).
+      intros _. destruct (iout s) eqn:Eo; [discriminate|]. split; [reflexivity|].
+      match goal with Hx : _ (outs_of s) = true |- _ =>
+        change (nodupb (outs_of s) = true) in Hx; apply nodupb_NoDup in Hx; unfold outs_of in Hx; rewrite Eo in Hx; exact Hx end. }
+    destruct Hc as [Hc Hw]. constructor; [exact Hc | eapply IH; eauto].
+Qed.
+
+(* what wf_prog says about a native-circuit step *)
+Lemma step_ok_circ p nck s : step_ok p nck s = true -> iop s = OCirc ->
+  let cc := nth (icirc s) (sp_circs p) cc0 in
+  wf (cc_c cc) = true /\ length (cc_ins cc) = length (iin s) /\ ninputs (cc_c cc) = sum_nat (cc_ins cc) /\
+  cc_outs cc = map vbits (iret s) /\ noutputs (cc_c cc) = sum_nat (cc_outs cc) /\
+  ninputs (cc_c cc) + noutputs (cc_c cc) <= nwires (cc_c cc).
+Proof.
+  intros H Eop. unfold step_ok in H. rewrite Eop in H.
+  apply andb_prop in H as [H _]. apply andb_prop in H as [H _]. apply andb_prop in H as [H _].
+  apply andb_prop in H as [H _]. apply andb_prop in H as [H _].
+  apply andb_prop in H as [H H6]. apply andb_prop in H as [H H5]. apply andb_prop in H as [H H4].
+  apply andb_prop in H as [H H3]. apply andb_prop in H as [H1 H2].
+  cbv zeta. repeat split; [exact H1 | apply Nat.eqb_eq, H2 | apply Nat.eqb_eq, H3 | apply list_nat_eqb_eq, H4 |
+                           apply Nat.eqb_eq, H5 | apply Nat.leb_le, H6].
+Qed.
+
+Lemma consts_tabled_read p steps : consts_tabled p steps = true -> consts_read_tabled p steps = true.
+Proof.
+  unfold consts_tabled, consts_read_tabled. intros H. rewrite forallb_forall in *. intros s Hs. specialize (H s Hs).
+  rewrite forallb_forall in *. intros j Hj. specialize (H j Hj). destruct (nth_error (iin s) j); [|reflexivity].
+  unfold const_ok. rewrite H. reflexivity.
+Qed.
+
 Theorem gc_sound p steps g :
   wf_prog p steps = true -> gc_fixed steps = Some g -> no_premature_reuse p g = true.
 Proof.
@@ -1767,12 +2050,14 @@ Proof.
     - reflexivity.
     - unfold init_w. cbn [whash]. apply in_or_app. right. left. reflexivity. }
   rewrite Hone.
-  assert (Hsok : Forall (sok NC (sp_args p)) steps).
-  { pose proof (wf_shape _ _ Hssa) as Hsh. rewrite Forall_forall in *. intros s Hs.
-    specialize (Hsh s Hs). specialize (Hsteps s Hs). unfold step_ok in Hsteps.
+  assert (Hsok : Forall (sok NC (sp_args p) (sp_circs p)) steps).
+  { pose proof (wf_shape _ _ Hssa) as Hsh. pose proof (wf_circ_shape _ _ Hssa) as Hcs. rewrite Forall_forall in *. intros s Hs.
+    specialize (Hsh s Hs). specialize (Hcs s Hs). pose proof (Hsteps s Hs) as Hstep. specialize (Hsteps s Hs). unfold step_ok in Hsteps.
     repeat (apply andb_prop in Hsteps as [Hsteps ?]).
     split.
-    - destruct (iop s); auto; discriminate.
+    - destruct (iop s) eqn:Eop; auto.
+      destruct (Hcs eq_refl) as [C1 C2]. destruct (step_ok_circ _ _ _ Hstep Eop) as (_ & _ & _ & C4 & _). cbv zeta in C4.
+      split; [exact C1|]. split; [exact C2|]. rewrite C4. apply map_length.
     - intros i Hi. split.
       + intros Hc.
         match goal with Hx : forallb (fun i => if vconst i then _ else _) (iin s) = true |- _ =>
@@ -2088,7 +2373,7 @@ Proof.
 Qed.
 
 Theorem stream_eq_whole p steps g xy :
-  wf_prog p steps = true -> consts_tabled p steps = true -> outbits_ok p steps = true ->
+  wf_prog p steps = true -> consts_read_tabled p steps = true -> outbits_ok p steps = true ->
   gc_fixed steps = Some g ->
   stream_eval p g xy = ssa_eval p steps xy.
 Proof.
@@ -2109,12 +2394,14 @@ Proof.
         rewrite forallb_forall in Hx; specialize (Hx k Ho) end.
       rewrite (proj2 (mem_In _ _) Hk) in *. discriminate.
     - apply NoDup_app_iff in Hnd as (_ & _ & Hd). exact (Hd k Hin Hk). }
-  assert (Hsok : Forall (sok NC (sp_args p)) steps).
-  { pose proof (wf_shape _ _ Hssa) as Hsh. rewrite Forall_forall in *. intros s Hs.
-    specialize (Hsh s Hs). specialize (Hsteps s Hs). unfold step_ok in Hsteps.
+  assert (Hsok : Forall (sok NC (sp_args p) (sp_circs p)) steps).
+  { pose proof (wf_shape _ _ Hssa) as Hsh. pose proof (wf_circ_shape _ _ Hssa) as Hcs. rewrite Forall_forall in *. intros s Hs.
+    specialize (Hsh s Hs). specialize (Hcs s Hs). pose proof (Hsteps s Hs) as Hstep. specialize (Hsteps s Hs). unfold step_ok in Hsteps.
     repeat (apply andb_prop in Hsteps as [Hsteps ?]).
     split.
-    - destruct (iop s); auto; discriminate.
+    - destruct (iop s) eqn:Eop; auto.
+      destruct (Hcs eq_refl) as [C1 C2]. destruct (step_ok_circ _ _ _ Hstep Eop) as (_ & _ & _ & C4 & _). cbv zeta in C4.
+      split; [exact C1|]. split; [exact C2|]. rewrite C4. apply map_length.
     - intros i Hi. split.
       + intros Hc.
         match goal with Hx : forallb (fun i => if vconst i then _ else _) (iin s) = true |- _ =>
@@ -2127,14 +2414,15 @@ Proof.
           rewrite forallb_forall in Hx; specialize (Hx i Hi); rewrite Hb in Hx end.
         apply Nat.eqb_eq. assumption. }
   assert (Hsok2 : Forall (sok2 Kt (sp_circs p)) steps).
-  { unfold consts_tabled in Htab. rewrite forallb_forall in Htab. rewrite Forall_forall. intros s Hs.
+  { unfold consts_read_tabled in Htab. rewrite forallb_forall in Htab. rewrite Forall_forall. intros s Hs.
     specialize (Htab s Hs). rewrite forallb_forall in Htab.
-    specialize (Hsteps s Hs). unfold step_ok in Hsteps.
+    pose proof (Hsteps s Hs) as Hstep. specialize (Hsteps s Hs). unfold step_ok in Hsteps.
     repeat (apply andb_prop in Hsteps as [Hsteps ?]).
-    split; [|split].
-    - intros i Hi Hc. unfold vpos_ops in Hi. apply in_flat_map in Hi as (j & Hj & Hi).
-      specialize (Htab j Hj). destruct (nth_error (iin s) j) as [i'|]; [|destruct Hi].
-      destruct Hi as [<-|[]]. rewrite Hc in Htab. cbn in Htab. apply mem_In. exact Htab.
+    split; [|split; [|split]].
+    - intros j i Hj Ej Hc. specialize (Htab j Hj). rewrite Ej in Htab. unfold const_ok in Htab. rewrite Hc in Htab.
+      cbn [negb orb] in Htab. apply orb_prop in Htab as [Ht|Ht]; [left; apply mem_In; exact Ht|]. right.
+      destruct (iop s) eqn:Eop; try discriminate. split; [reflexivity | exact Ht].
+    - intros Eop. exact (step_ok_circ _ _ _ Hstep Eop).
     - intros Eop o Eout.
       match goal with Hx : match iop s with OSlice => _ | _ => _ end = true |- _ => rewrite Eop, Eout in Hx;
         apply andb_prop in Hx as [Hx Hx3]; apply andb_prop in Hx as [Hx1 Hx2] end.
@@ -2176,7 +2464,7 @@ Qed.
 
 (* the simulation proper: on the gc'd list itself *)
 Theorem stream_sim_gc p steps g xy :
-  wf_prog p steps = true -> consts_tabled p steps = true -> outbits_ok p steps = true ->
+  wf_prog p steps = true -> consts_read_tabled p steps = true -> outbits_ok p steps = true ->
   gc_fixed steps = Some g ->
   no_premature_reuse p g = true /\ stream_eval p g xy = ssa_eval p g xy.
 Proof.
@@ -2186,4 +2474,37 @@ Proof.
   unfold wf_prog in Hwf. apply andb_prop in Hwf as [Hwf _]. apply andb_prop in Hwf as [Hssa _].
   apply forallb_forall. intros s Hs. pose proof (wf_not_gc _ _ Hssa) as Hn. rewrite Forall_forall in Hn.
   specialize (Hn s Hs). unfold not_gc. destruct (iop s); auto; try (exfalso; apply Hn; reflexivity).
+Qed.
+
+(* ------------------------------------------------------------------ *)
+(** * Non-vacuity of the hypotheses for native-circuit steps and unread
+      constant operands
+
+   main(a uint2, b uint2): r := native("xor2", a, 1) — the narrow constant 1
+   (one bit, in prog.Constants) is padded in place to the circuit's second
+   2-bit input; q := gen(r, $k) where the 2-bit constant $k is NOT in
+   prog.Constants and no gate of the step circuit reads its input wires
+   (the offset operand of index); ret q.  wf_prog, consts_read_tabled and
+   outbits_ok hold, consts_tabled does not, Program.GC frees a, and the
+   streamed result is the reference result. *)
+Definition nv_xor2 : ccirc := mkCcirc (mkCircuit 6 4 2 [mkGate 0 2 4 XOR; mkGate 1 3 5 XOR]) [2; 2] [2].
+Definition nv_gen : ccirc := mkCcirc (mkCircuit 6 4 2 [mkGate 0 1 4 XOR; mkGate 0 1 5 AND]) [] [].
+Definition nv_prog : sprog :=
+  mkSprog [(0%N, 2); (1%N, 2)] 100%N 101%N [(51%N, [true])] [nv_xor2; nv_gen] [2].
+Definition nv_val (k : N) : val := mkVal k false 2 false 0%Z.
+Definition nv_steps : list instr :=
+  [ mkInstr OCirc [nv_val 0; mkVal 51%N true 1 false 1%Z] None [nv_val 2] None 0;
+    mkInstr OGen [nv_val 2; mkVal 50%N true 2 false 0%Z] (Some (nv_val 3)) [] None 1;
+    mkInstr ORet [nv_val 3] None [] None 0 ].
+
+Example circ_and_unread_nonvacuous :
+  wf_prog nv_prog nv_steps = true /\ consts_read_tabled nv_prog nv_steps = true /\
+  consts_tabled nv_prog nv_steps = false /\ outbits_ok nv_prog nv_steps = true /\
+  exists g, gc_fixed nv_steps = Some g /\ length g = 5 /\
+    stream_eval nv_prog g [true; true; false; false] = Some [true; false] /\
+    ssa_eval nv_prog nv_steps [true; true; false; false] = Some [true; false].
+Proof.
+  split; [vm_compute; reflexivity|]. split; [vm_compute; reflexivity|]. split; [vm_compute; reflexivity|].
+  split; [vm_compute; reflexivity|]. eexists. split; [vm_compute; reflexivity|].
+  split; [reflexivity|]. split; vm_compute; reflexivity.
 Qed.
